@@ -4,6 +4,16 @@ _NOTE = ('Trusted: CPython ast, mypy-inferred receiver types (callee resolution)
          'modules. Decides only the structural clauses named; runtime values, timing and histories are not decided.')
 
 CLAIMS = {
+    'C13': {
+        'text': 'Field-sensitive taint of the members holding text decoded from wire bytes; every value interpolated into a JSON '
+                'fragment by the response encoders and by ~140 json() methods is int-like, closed-alphabet, a nested json() '
+                'or sanitised (json.dumps/_string/hexstring); same for the Text/V4Text encoders with oneline/hexstring; the '
+                'attribute key table is injective over renderable entries; everything written is ASCII (json.dumps keeps '
+                'ensure_ascii, oneline confines to ASCII); no newline in JSON templates, envelope keys; every message kind has '
+                'an emitter in each encoder class. One known finding (F9). Not decided: parseability of every nested fragment.',
+        'note': _NOTE,
+        'technique': 'field-sensitive taint from decode sources + safe-string inference over f-string/format/% interpolations with mypy types, table injectivity, registry exhaustiveness',
+    },
     'C01': {
         'text': 'Default attribute table (ORIGIN/AS_PATH/LOCAL_PREF per session type, local AS vs peer AS); ASPath.pack_attribute '
                 'AS_TRANS/AS4_PATH structure; every make_aspath of caller-provided ASNs is 4 bytes wide; the ADD-PATH tables of '
